@@ -525,10 +525,11 @@ func (s *scen) finish() {
 	// patience is counted from the last progress
 	patience := 300 * time.Millisecond
 	if !s.cfg.exact {
-		patience = 1500 * time.Millisecond
+		patience = 3 * time.Second // zero-window probing over small buffers can stall for seconds (then: no verdict)
 	}
 	deadline := time.Now().Add(patience)
 	idle := 0
+	undelivered := false
 	for {
 		progress := s.drain(1<<22, 0) > 0
 		if s.wbusy {
@@ -551,18 +552,27 @@ func (s *scen) finish() {
 			continue
 		}
 		idle = 0
+		if s.mem == nil && !s.wbusy && rawpeer.Outq(s.conn.RawFd()) == 0 && rawpeer.Inq(s.peer) == 0 && s.drain(1<<18, 0) == 0 {
+			break // nothing queued in the kernel in either socket: what is missing will never arrive
+		}
 		if progress {
 			deadline = time.Now().Add(patience)
 		} else {
 			if time.Now().After(deadline) || s.mem != nil {
+				if s.mem == nil && !s.wbusy {
+					undelivered = true
+				}
 				break
 			}
 			rawpeer.WaitFd(s.peer, unix.POLLIN, 2)
 		}
 	}
 	ok := 0
-	if !s.wbusy {
+	if !s.wbusy && !undelivered {
 		ok = 1
+	}
+	if undelivered {
+		s.emit(Ev{Ev: "Note", Err: "bytes still queued in the kernel at End"})
 	}
 	s.emit(Ev{Ev: "End", Ok: ok})
 }
